@@ -4,12 +4,19 @@
 //
 // op lines (all stateless):
 //   pf  <fmt-hex> <arg>*          __printf through a variadic shim
+//   pfmin <fmt-hex> <arg>*        the same; only for the probes of the finding
+//                                 C06-star-width-int-min (the driver does not evaluate them)
 //   sp  <fmt-hex> <arg>*          igv_vsprintf into an exactly sized buffer
 //   spv <fmt-hex> <arg>*          igv_sprintf (the variadic entry point)
 //   fd  <limit> <fmt-hex> <arg>*  vfdprintf; write() under fdputc fails (-1)
 //                                 once <limit> characters went out (limit<0: never)
 //   iso <fmt-hex> <arg>*          host glibc vsnprintf (validates the Lean
 //                                 spec `isoFormat`, which the driver prints)
+//   fdv <limit> <fmt-hex> <arg>*  fdprintf (the variadic entry point), as `fd`
+//   sn  <size> <fmt-hex> <arg>*   igv_snprintf (variadic) into an exactly sized
+//                                 buffer of <size> bytes filled with a5
+//   vsn <size> <fmt-hex> <arg>*   igv_vsnprintf through the shim, as `sn`
+//                                 (sn/vsn result: "<ret> <hex of the whole buffer>")
 // <arg>:  i:<dec int>  l:<dec int64>  p:<hex>  n: (NULL char*)
 //         s:<hex bytes>  (NUL terminated)   u:<hex bytes> (NOT terminated,
 //         exactly sized allocation: any read past the bytes is an ASan abort)
@@ -27,6 +34,11 @@ static_assert((char)0x80 < 0, "char signed assumed");
 extern "C" int igv_vsprintf(char *s, const char *format, va_list ap);
 extern "C" int igv_sprintf(char *buf, const char *format, ...);
 extern "C" int vfdprintf(int fd, const char *format, va_list args);
+extern "C" int fdprintf(int fd, const char *format, ...);
+extern "C" int igv_snprintf(char *buf, size_t maxlen, const char *format, ...);
+#ifndef C06_NO_VSNPRINTF
+extern "C" int igv_vsnprintf(char *buf, size_t maxlen, const char *format, va_list ap);
+#endif
 
 using namespace hv;
 typedef std::vector<uint8_t> bytes;
@@ -99,7 +111,10 @@ enum Which
     W_VSPRINTF,
     W_FD,
     W_GLIBC,
-    W_SPRINTF
+    W_SPRINTF,
+    W_SNPRINTF,
+    W_FDPRINTF,
+    W_VSNPRINTF
 };
 struct Call
 {
@@ -128,6 +143,13 @@ static int shim(Call *c, const char *fmt, ...)
     case W_GLIBC:
         r = vsnprintf(c->buf, c->bufsz, fmt, ap);
         break;
+    case W_VSNPRINTF:
+#ifndef C06_NO_VSNPRINTF
+        r = igv_vsnprintf(c->buf, c->bufsz, fmt, ap);
+#endif
+        break;
+    default:
+        break;
     }
     va_end(ap);
     return r;
@@ -141,6 +163,10 @@ template <class... A> static int dispatch(Call *c, const char *fmt, const std::v
     {
         if (c->which == W_SPRINTF) // igv_sprintf: the variadic entry itself
             return igv_sprintf(c->buf, fmt, a...);
+        if (c->which == W_SNPRINTF)
+            return igv_snprintf(c->buf, c->bufsz, fmt, a...);
+        if (c->which == W_FDPRINTF)
+            return fdprintf(7, fmt, a...);
         return shim(c, fmt, a...);
     }
     if constexpr (sizeof...(A) < MAXARGS)
@@ -177,6 +203,7 @@ struct Dir
     std::string len;
     char conv = 0;
     int argi = -1; // index of the value argument
+    size_t pos = 0; // index of the conversion character in the format
 };
 struct Parsed
 {
@@ -274,6 +301,7 @@ static Parsed classify(const bytes &f, const std::vector<Arg> &args)
         }
         if (i >= f.size()) { bad("truncated directive"); P.dirs.push_back(d); break; }
         d.conv = (char)f[i];
+        d.pos = i;
         bool plain = !d.minus && !d.plus && !d.space && !d.hash && !d.zero && !d.width_kind && !d.prec_written && d.len.empty();
         switch (d.conv)
         {
@@ -334,6 +362,7 @@ static Parsed classify(const bytes &f, const std::vector<Arg> &args)
 }
 
 // ---------------------------------------------------------------- run
+static std::string former_finding_class(const Parsed &P, const std::vector<Arg> &args);
 static std::string res(long ret, const bytes &out) { return std::to_string(ret) + " " + hex(out); }
 
 static void run_op(const std::vector<std::string> &w, const std::string &, out &o)
@@ -341,9 +370,10 @@ static void run_op(const std::vector<std::string> &w, const std::string &, out &
     const std::string &op = w[0];
     size_t k = 1;
     long limit = -1;
-    if (op == "fd")
-        limit = strtol(w[k++].c_str(), 0, 10);
-    if (!(op == "pf" || op == "sp" || op == "spv" || op == "fd" || op == "iso") || w.size() <= k)
+    bool is_sn = op == "sn" || op == "vsn";
+    if ((op == "fd" || op == "fdv" || is_sn) && w.size() > 1)
+        limit = strtol(w[k++].c_str(), 0, 10); // fd: error limit; sn: buffer size
+    if (!(op == "pf" || op == "pfmin" || op == "sp" || op == "spv" || op == "fd" || op == "iso" || op == "fdv" || is_sn) || w.size() <= k || (is_sn && (limit < 0 || limit > 4096)))
     {
         o.result = "bad-op";
         return;
@@ -436,6 +466,10 @@ static void run_op(const std::vector<std::string> &w, const std::string &, out &
         if ((a.kind == 'i' || a.kind == 'l') && a.v < 0) o.tag("negative");
     }
     o.tag(P.defined ? "iso-defined" : "iso-undefined");
+    {
+        std::string fc = former_finding_class(P, args);
+        if (!fc.empty()) o.tag(fc == "C06-alt-zero" ? "alt-zero" : "c-nul");
+    }
 
     // the engine itself (also used to size the buffers of the wrappers)
     Sink sink;
@@ -445,7 +479,7 @@ static void run_op(const std::vector<std::string> &w, const std::string &, out &
     if (ret != sink.calls)
         o.fail("return value " + std::to_string(ret) + " != " + std::to_string(sink.calls) + " characters emitted");
 
-    if (op == "pf")
+    if (op == "pf" || op == "pfmin") // pfmin: pf, kept apart for the driver (probes of C06-star-width-int-min)
         o.result = res(ret, out);
     else if (op == "sp" || op == "spv")
     {
@@ -458,11 +492,51 @@ static void run_op(const std::vector<std::string> &w, const std::string &, out &
         if (r2 != ret || b.vec() != expect)
             o.fail("vsprintf/sprintf differs from __printf + terminator");
     }
-    else // fd
+    else if (is_sn)
+    {
+        // snprintf(buf, size, ...): the buffer is an allocation of exactly
+        // `size` bytes (size 0: a pointer to the end of an allocation), so a
+        // write behind it is an ASan abort.  ISO 7.21.6.5: at most size-1
+        // characters and a terminator are written, the returned value is the
+        // number of characters the whole output has.
+        size_t size = (size_t)limit;
+        exact_buf b(size ? size : 1);
+        char *dst = size ? (char *)b.p : (char *)b.p + 1;
+        Call v{op == "sn" ? W_SNPRINTF : W_VSNPRINTF, nullptr, dst, size};
+        long r2 = dispatch(&v, fmt, args, 0);
+        bytes got(size ? b.p : b.p + 1, b.p + (size ? size : 1));
+        o.result = res(r2, got);
+        bytes expect(size, 0xA5);
+        if (size)
+        {
+            size_t n = std::min(size - 1, out.size());
+            std::copy(out.begin(), out.begin() + (long)n, expect.begin());
+            expect[n] = 0;
+        }
+        if (r2 != ret)
+            o.fail("snprintf returns " + std::to_string(r2) + ", the whole output has " + std::to_string(ret) + " characters");
+        else if (got != expect)
+            o.fail("snprintf buffer is not the first size-1 characters of the output, a terminator, and untouched bytes behind");
+        if (size && out.size() + 1 > size) o.tag("sn-truncated");
+        if (size && out.size() + 1 == size) o.tag("sn-exact-fit");
+        if (!size) o.tag("sn-size0");
+        if (P.defined && !P.has_p && !o.result.empty())
+        {
+            // glibc with the same size
+            exact_buf gb(size ? size : 1);
+            Call g{W_GLIBC, nullptr, size ? (char *)gb.p : (char *)gb.p + 1, size};
+            long gr = dispatch(&g, fmt, gargs, 0);
+            bytes gg(size ? gb.p : gb.p + 1, gb.p + (size ? size : 1));
+            // glibc leaves the bytes behind the terminator alone as well
+            if (gr != r2 || gg != got)
+                o.fail("ISO/glibc snprintf gives " + res(gr, gg));
+        }
+    }
+    else // fd, fdv
     {
         g_fd_out.clear();
         g_fd_limit = limit;
-        Call v{W_FD, nullptr, nullptr, 0};
+        Call v{op == "fd" ? W_FD : W_FDPRINTF, nullptr, nullptr, 0};
         long r2 = dispatch(&v, fmt, args, 0);
         o.result = res(r2, g_fd_out);
         bool failed = limit >= 0 && (long)out.size() > limit;
@@ -504,6 +578,46 @@ static void run_op(const std::vector<std::string> &w, const std::string &, out &
             o.fail("%p output is not [pad]0x<hex digits parsing back to the pointer>[pad] of the given width");
         o.tag("p-oracle");
     }
+    if (P.defined && P.has_p)
+    {
+        // any format with %p (several directives, literal text): ISO leaves the
+        // rendering of a pointer to the implementation, igris documents "0x and
+        // 16 hexadecimal digits".  Expected text = glibc on the same format with
+        // every %p directive turned into %s of that rendering (made here with
+        // glibc's %016llx), flags and width kept.
+        bytes f2 = fz;
+        std::vector<Arg> a2 = gargs;
+        for (auto &d : P.dirs)
+            if (d.conv == 'p')
+            {
+                f2[d.pos] = 's';
+                char tmp[40];
+                snprintf(tmp, sizeof tmp, "0x%016llx", (unsigned long long)a2[d.argi].v);
+                Arg sa;
+                sa.kind = 's';
+                sa.s = bytes(tmp, tmp + strlen(tmp));
+                bytes m = sa.s;
+                m.push_back(0);
+                keep.emplace_back(new exact_buf(m));
+                sa.buf = keep.back().get();
+                a2[d.argi] = sa;
+            }
+        exact_buf fb2(f2);
+        Call g{W_GLIBC, nullptr, nullptr, 0};
+        long er = dispatch(&g, (const char *)fb2.p, a2, 0);
+        bytes exp2;
+        if (er >= 0)
+        {
+            exact_buf gb((size_t)er + 1);
+            g.buf = (char *)gb.p;
+            g.bufsz = (size_t)er + 1;
+            dispatch(&g, (const char *)fb2.p, a2, 0);
+            exp2.assign(gb.p, gb.p + er);
+        }
+        if (out != exp2 || ret != er)
+            o.fail("with %p as 0x + 16 hex digits ISO/glibc gives " + res(er, exp2));
+        o.tag("p-multi-oracle");
+    }
 }
 
 // ---------------------------------------------------------------- gen
@@ -540,8 +654,16 @@ static unsigned long long conv_u(const Dir &d, long long v)
     if (d.len == "" || d.len == "L") return (unsigned int)v;
     return (unsigned long long)v;
 }
-// the recorded findings' input classes (see known_findings.d/C06.jsonl)
+// the input classes of the recorded findings (see known_findings.d/C06.jsonl).
+// The two classes of the first round (`#` with a zero value, %c of NUL) were
+// repaired (fix: 8be88bc, ff2efab): they are ordinary ops now and only tagged.
 static std::string finding_key(const Parsed &P, const std::vector<Arg> &args)
+{
+    (void)P;
+    (void)args;
+    return "";
+}
+static std::string former_finding_class(const Parsed &P, const std::vector<Arg> &args)
 {
     if (!P.defined)
         return "";
@@ -561,11 +683,7 @@ static std::string finding_key(const Parsed &P, const std::vector<Arg> &args)
         if (d.conv == 'c' && (char)args[d.argi].v == 0)
             k = "C06-c-nul";
         if (!k.empty())
-        {
-            if (!key.empty() && key != k)
-                return "skip"; // two classes in one format: not generated
             key = k;
-        }
     }
     return key;
 }
@@ -703,6 +821,136 @@ static std::string flags_of(rng &r, unsigned mask)
     for (size_t i = fl.size(); i > 1; i--) std::swap(fl[i - 1], fl[r.below(i)]);
     if (!fl.empty() && r.chance(10)) fl.push_back(fl[r.below(fl.size())]);
     return fl;
+}
+
+// a format of 1-3 mostly ISO-defined directives with literal text (as part (4))
+static void rnd_format(rng &r, bytes &f, std::vector<Arg> &args)
+{
+    int nd = (int)r.range(1, 3);
+    for (int d = 0; d < nd; d++)
+    {
+        bytes lit = rnd_text(r, (size_t)r.below(4), true);
+        f.insert(f.end(), lit.begin(), lit.end());
+        Spec s;
+        s.conv = CONVS[r.below(10)];
+        bool strict = r.chance(85);
+        unsigned mask = (unsigned)r.below(32);
+        if (strict)
+        {
+            if (strchr("diucsp", s.conv)) mask &= ~8u;
+            if (strchr("csp", s.conv)) mask &= ~16u;
+            if (s.conv == 'p') mask &= 1u;
+            if (s.conv == '%') mask = 0;
+        }
+        s.flags = flags_of(r, mask);
+        if (!(strict && s.conv == '%'))
+        {
+            int wk = (int)r.below(4);
+            s.width = wk == 0 ? "" : wk == 1 ? "*" : std::to_string(r.range(1, 14));
+            s.wstar = r.range(-14, 14);
+            if (!(strict && (s.conv == 'c' || s.conv == 'p')))
+            {
+                int pk = (int)r.below(5);
+                s.prec = pk == 0 ? "" : pk == 1 ? ".*" : pk == 2 ? "." : "." + std::to_string(r.range(0, 12));
+                s.pstar = r.range(-2, 12);
+            }
+            if (!(strict && strchr("csp", s.conv)) && r.chance(50))
+                s.len = LENS[r.below(LENS.size())];
+        }
+        if (args.size() + 3 > MAXARGS) break;
+        put_dir(r, s, f, args);
+    }
+    bytes lit = rnd_text(r, (size_t)r.below(4), true);
+    f.insert(f.end(), lit.begin(), lit.end());
+}
+// `op <n> <fmt> <args>` for the ops that carry a number (fd, fdv, sn, vsn)
+static void emit_n(const char *op, long n, const bytes &f, const std::vector<Arg> &args)
+{
+    if (args.size() > MAXARGS)
+        return;
+#ifdef C06_NO_VSNPRINTF
+    if (!strcmp(op, "vsn"))
+        return;
+#endif
+    Parsed P = classify(f, args);
+    if (!finding_key(P, args).empty())
+        return;
+    std::string line = hex(f);
+    for (auto &a : args) line += " " + arg_str(a);
+    printf("%s %ld %s\n", op, n, line.c_str());
+    g_emitted++;
+}
+// length of the output, for choosing buffer sizes around it (glibc; only a
+// hint for the generator, 12 when ISO does not define the format)
+static long out_len_hint(const bytes &f, const std::vector<Arg> &args)
+{
+    Parsed P = classify(f, args);
+    if (!P.defined) return 12;
+    bytes fz = f;
+    fz.push_back(0);
+    std::vector<Arg> a = args;
+    std::vector<std::unique_ptr<exact_buf>> keep;
+    for (auto &x : a)
+        if (x.kind == 's' || x.kind == 'u')
+        {
+            bytes m = x.s;
+            m.push_back(0);
+            keep.emplace_back(new exact_buf(m));
+            x.buf = keep.back().get();
+        }
+    Call g{W_GLIBC, nullptr, nullptr, 0};
+    long n = dispatch(&g, (const char *)fz.data(), a, 0);
+    for (auto &d : P.dirs)
+        if (d.conv == 'p') n += 18; // igris' %p is longer than glibc's
+    return n < 0 ? 12 : n;
+}
+
+static void gen_wrappers(rng &r, bool th)
+{
+    // (6) the remaining entry points: snprintf / vsnprintf (size argument:
+    //     0, 1, around the length of the output, larger), fdprintf (variadic)
+    static const char *const fixed_[] = {"", "a", "abc", "%d", "%5d|", "%-5d|", "x=%x", "%s", "%.3s|%c", "%%", "%p", "%lld %s"};
+    for (std::string d : fixed_)
+    {
+        bytes f = B(d);
+        Parsed P = classify(f, {});
+        std::vector<Arg> args;
+        for (char kd : P.need)
+            args.push_back(kd == 'i' ? AI(r.pick(IVALS)) : kd == 'l' ? AL(r.pick(LVALS)) : kd == 'p' ? AP(r.pick(PVALS)) : AS(B("hello"), true));
+        long n = out_len_hint(f, args);
+        for (long size = 0; size <= n + 3; size++)
+        {
+            emit_n("sn", size, f, args);
+            emit_n("vsn", size, f, args);
+        }
+        for (long lim = -1; lim <= n + 1; lim++)
+            emit_n("fdv", lim, f, args);
+    }
+    long n6 = th ? 12000 : 1500;
+    for (long k = 0; k < n6; k++)
+    {
+        bytes f;
+        std::vector<Arg> args;
+        rnd_format(r, f, args);
+        long n = out_len_hint(f, args);
+        long size;
+        switch ((int)r.below(6))
+        {
+        case 0: size = r.range(0, 2); break;
+        case 1: size = n + r.range(-2, 2); break;
+        case 2: size = n + 1; break; // exact fit
+        case 3: size = r.range(0, n + 1); break;
+        case 4: size = n + r.range(2, 40); break;
+        default: size = r.range(0, 48); break;
+        }
+        if (size < 0) size = 0;
+        switch ((int)(k % 4))
+        {
+        case 0: case 1: emit_n("sn", size, f, args); break;
+        case 2: emit_n("vsn", size, f, args); break;
+        default: emit_n("fdv", r.range(-1, n + 1), f, args); break;
+        }
+    }
 }
 
 static void gen(rng &r, const std::string &tier)
@@ -873,6 +1121,12 @@ static void gen(rng &r, const std::string &tier)
             emit("pf", f, args, true);
         }
     }
+    gen_wrappers(r, th);
+    // probes of the recorded finding C06-star-width-int-min: `width = -width`
+    // on INT_MIN is a signed overflow (UBSan aborts); excluded from the stream
+    // everywhere else (classify: "width INT_MIN", generators keep `*` small)
+    printf("@F:C06-star-width-int-min pfmin 252a64 i:-2147483648 i:1\n");
+    printf("@F:C06-star-width-int-min pfmin 3c252d2a733e i:-2147483648 s:6162\n");
 }
 
 int main(int argc, char **argv) { return main_(argc, argv, gen, run_op); }
